@@ -18,16 +18,17 @@ class Lab:
         self.data_dir = self.root / 'data'
         self.log = self.root / 'invocations.jsonl'
         self.nsess = 0
+        self.sess_env = None       # environment variables set inside every session process of this lab
 
     def sess(self, steps, data_dir=None, **kw):
         self.nsess += 1
         return {'lab_root': str(self.root), 'src': self.paths['src'], 'data_dir': str(data_dir or self.data_dir), 'log': str(self.log),
-                'session': f's{self.nsess}', 'steps': steps, **kw}
+                'session': f's{self.nsess}', 'steps': steps, **({'env': self.sess_env} if self.sess_env else {}), **kw}
 
-    def run(self, steps, spawn=False, hashseed=None, timeout=120, data_dir=None, **kw):
+    def run(self, steps, spawn=False, hashseed=None, timeout=120, data_dir=None, py_flags=(), env_extra=None, **kw):
         s = self.sess(steps, data_dir=data_dir, **kw)
-        if spawn:
-            return worker.run_session_spawned(s, hashseed=hashseed, timeout=timeout + 60)
+        if spawn or py_flags or env_extra:
+            return worker.run_session_spawned(s, hashseed=hashseed, timeout=timeout + 60, py_flags=py_flags, env_extra=env_extra)
         return worker.run_session_forked(s, timeout=timeout)
 
     def files(self, data_dir=None):
